@@ -43,20 +43,39 @@ CHECKS = {
         text='write(int) on every 16-bit value (thorough) and boundary sets at W 2,3,4,8; write(byte)/write(bool) on all values; '
              'write(string / byte arrays) for every length 0..64 from five storage classes; non-interference with live caller state '
              'at every stack size from 1 to S_min+4 words with every load/store checked against its entitlement.'),
+    'C03': dict(
+        level='model_checking', design='6/C03',
+        technique='explicit-state exploration of all Turing-jump futures on a VM; invariant on outcomes (never a committed halt, never a trap) over bounded-exhaustive program families',
+        text='Family K (every function flavour x terminal shape x nesting, 4 word sizes, checked and unchecked) plus the program families of '
+             'C01/C02/C05/C08 are run with every Turing-jump future explored; the committed timeline must close a state cycle and may '
+             'never be a halt with an empty choice stack nor a trap; speculative halts are counted to show the invariant is not vacuous.'),
+    'C04': dict(
+        level='model_checking', design='6/C04',
+        technique='explicit-state exploration on a VM with a per-access memory-entitlement monitor on every explored state + exhaustive stack-size sweep (1..S_min+8 words) + reference-trace conformance with canaries',
+        text='Family M (frames x arrays of every element type x callees x element calls/temporaries x try/stop) is run at every stack size '
+             'from one word up; each load/store/jump on each explored path is classified by its base operand and checked against live '
+             '(ap, fp) and live array extents; below S_min the run must be a clean stack_overflow, from S_min on it must equal the reference.'),
+    'C08': dict(
+        level='model_checking', design='6/C08',
+        technique='explicit-state exploration on a VM with an (fp, ap) scope monitor + stack-footprint invariance over iteration counts found by exhaustive stack sweeps + reference-trace conformance',
+        text='Family X (scope kind x allocation x exit route incl. break/continue/return/defeat->stop/defeat->undo, run 1,2,3,5 times) with '
+             'canary arrays; S_min from a full sweep must not depend on the iteration count; (fp, ap) must be unchanged across every '
+             'non-declaration statement, stable at loop heads and restored at loop exits on every explored state.'),
+    'C15': dict(
+        level='model_checking', design='6/C15',
+        technique='metamorphic twin runs (checked vs --unchecked) on the exploring VM over the bounded-exhaustive families of C01/C02/C05/C08',
+        text='Each enumerated (program, input, word size) is compiled with and without runtime checks; when the checked run raises no fault '
+             'the unchecked committed trace must be identical, must not trap, and must satisfy the memory monitor.'),
 }
 
 PENDING = {
-    'C03': 'check under construction in this round (not a claim that the technique cannot apply)',
-    'C04': 'check under construction in this round (not a claim that the technique cannot apply)',
     'C06': 'check under construction in this round (not a claim that the technique cannot apply)',
     'C07': 'check under construction in this round (not a claim that the technique cannot apply)',
-    'C08': 'check under construction in this round (not a claim that the technique cannot apply)',
     'C10': 'check under construction in this round (not a claim that the technique cannot apply)',
     'C11': 'check under construction in this round (not a claim that the technique cannot apply)',
     'C12': 'check under construction in this round (not a claim that the technique cannot apply)',
     'C13': 'check under construction in this round (not a claim that the technique cannot apply)',
     'C14': 'check under construction in this round (not a claim that the technique cannot apply)',
-    'C15': 'check under construction in this round (not a claim that the technique cannot apply)',
     'C16': 'check under construction in this round (not a claim that the technique cannot apply)',
     'C18': 'check under construction in this round (not a claim that the technique cannot apply)',
 }
